@@ -76,7 +76,11 @@ def build(targets=None, timeout=1500):
 def audit_sources():
     """grep the development for anything that would declare an axiom or weaken the kernel."""
     bad = []
-    for f in sorted(COQ.rglob("*.v")):
+    listed = [COQ / n for n in _coqproject_files()]
+    listed += sorted((COQ / "Props").glob("*.v")) + sorted((COQ / "gen").glob("*.v"))
+    for f in sorted(set(listed)):
+        if not f.exists():
+            continue
         txt = f.read_text()
         # strip comments (nested) before matching
         out, depth, i = [], 0, 0
